@@ -11,6 +11,8 @@ from sim.worker_world import simulate as _simulate
 from ._wcommon import (ASSUMPTIONS, COMPONENTS_REAL, COMPONENTS_STUB, Hist, Violation, default_nontrivial,  # noqa: F401
                        simplifications)
 
+from ._wcommon import abstract_states  # noqa: F401,E402
+
 ID = "C09"
 RUNS = {"quick": 8000, "thorough": 250000}
 BUDGET_S = {"quick": 60, "thorough": 900}
